@@ -582,48 +582,7 @@ def threaded(ctx, holder, n_runs, tag, only=None, seed=None, shard=None):
 PREEMPT_FILES = ("bip32", "base_wallet", "paper_wallet", "bip85", "wallet_utils")
 
 
-class Preempter:
-    """Deterministic scheduler for two threads: thread A runs operation a; at its k-th LINE event inside btc_hd_wallet
-    (anchor files only) it is parked, thread B runs operation b to completion, then A resumes.  k = None: never park
-    (used to count A's statements).  This enumerates EVERY single-preemption interleaving of (a, b) at statement
-    granularity instead of sampling them."""
-    TOOL = 5
-
-    def __init__(self, k):
-        self.k = k
-        self.count = 0
-        self.a_ident = None
-        self.go_b = threading.Event()
-        self.b_done = threading.Event()
-        self.parked_at = None
-        self.prefix = inject._repo_prefix()
-
-    def start(self):
-        import os
-        mon = sys.monitoring
-        mon.use_tool_id(self.TOOL, "vp-preempt")
-
-        def cb(code, line):
-            fn = code.co_filename
-            if not fn.startswith(self.prefix) or os.path.basename(fn)[:-3] not in PREEMPT_FILES:
-                return mon.DISABLE
-            if threading.get_ident() != self.a_ident:
-                return None
-            self.count += 1
-            if self.k is not None and self.count == self.k:
-                self.parked_at = "%s:%d" % (code.co_name, line)
-                self.go_b.set()
-                self.b_done.wait(60)
-            return None
-        mon.register_callback(self.TOOL, mon.events.LINE, cb)
-        mon.set_events(self.TOOL, mon.events.LINE)
-        mon.restart_events()
-
-    def stop(self):
-        mon = sys.monitoring
-        mon.set_events(self.TOOL, 0)
-        mon.register_callback(self.TOOL, mon.events.LINE, None)
-        mon.free_tool_id(self.TOOL)
+Preempter = inject.Preempter
 
 
 def _preempt_ops(world, rnd_seed):
@@ -724,7 +683,7 @@ def preemption_sweep(ctx, holder, pairs, tag, stride=1):
             holder["world"] = world
             return world, _preempt_ops(world, 0)
         world, ops = build()
-        pre = Preempter(None)
+        pre = Preempter(None, PREEMPT_FILES)
         pre.a_ident = threading.get_ident()
         pre.start()
         try:
@@ -734,7 +693,7 @@ def preemption_sweep(ctx, holder, pairs, tag, stride=1):
         n_lines = pre.count
         world, ops = build()          # one world per pair: the shared objects also accumulate the history of earlier interleavings
         for k in range(1, n_lines + 1, stride):
-            pre = Preempter(k)
+            pre = Preempter(k, PREEMPT_FILES)
             res = {}
             errs = []
 
